@@ -61,4 +61,21 @@ theorem colMajor_ref_collect (e : MExpr) (n : Nat) :
   simp only [colMajorItem, MExpr.msource]
   split <;> rfl
 
+/-- the reference flavour of the diagonal iterator over a view stack: call `k` yields the cell of
+    index `(k, k)` for `k < min rows columns`, then `None`, never a panic -/
+theorem diagonal_ref_collect (e : MExpr) (n : Nat) :
+    collect (refNext lineNext e.msource.cell) n (LineIter.newDiagonal e.size.1 e.size.2) =
+      .ok ((List.range n).map (fun k => if k < min e.size.1 e.size.2 then some (e.cell k k) else none),
+           lineState .diagonal (min e.size.1 e.size.2) n) := by
+  have E := (line_enumerates .diagonal (min e.size.1 e.size.2)).ref e.msource.cell
+  have := E.collect_from n 0
+  rw [E.start, Nat.zero_add, ← List.range_eq_range'] at this
+  simp only [LineIter.newDiagonal]
+  rw [this]
+  congr 2
+  apply List.map_congr_left
+  intro k _
+  simp only [MExpr.msource, Line.position]
+  split <;> rfl
+
 end EasyMl.MatrixView
